@@ -374,6 +374,86 @@ fn object_classes(ctx: &Ctx) {
     }
 }
 
+// A spy atomic type: records the ordering the library passes down to the atomic operation.
+thread_local! {
+    static LAST_ORDER: std::cell::Cell<Option<(bool, Ordering)>> = const { std::cell::Cell::new(None) };
+}
+
+#[repr(transparent)]
+struct SpyAtomic(std::sync::atomic::AtomicU32);
+
+// SAFETY: same layout and semantics as AtomicU32
+unsafe impl vm_memory::AtomicInteger for SpyAtomic {
+    type V = u32;
+    fn new(v: u32) -> Self {
+        SpyAtomic(std::sync::atomic::AtomicU32::new(v))
+    }
+    fn load(&self, order: Ordering) -> u32 {
+        LAST_ORDER.with(|l| l.set(Some((false, order))));
+        self.0.load(order)
+    }
+    fn store(&self, val: u32, order: Ordering) {
+        LAST_ORDER.with(|l| l.set(Some((true, order))));
+        self.0.store(val, order)
+    }
+}
+
+#[derive(Clone, Copy, Debug, PartialEq)]
+#[repr(transparent)]
+struct SpyVal(u32);
+// SAFETY: a plain u32
+unsafe impl vm_memory::ByteValued for SpyVal {}
+impl From<u32> for SpyVal {
+    fn from(v: u32) -> Self {
+        SpyVal(v)
+    }
+}
+impl From<SpyVal> for u32 {
+    fn from(v: SpyVal) -> u32 {
+        v.0
+    }
+}
+impl vm_memory::AtomicAccess for SpyVal {
+    type A = SpyAtomic;
+}
+
+/// The atomic store/load operations are performed with the ordering the caller requested.
+fn orderings(ctx: &Ctx) {
+    let m = GuestMemoryMmap::<()>::from_ranges(&[(GuestAddress(0x1000), 64)]).unwrap();
+    let reg = m.iter().next().unwrap();
+    let vs = reg.as_volatile_slice().unwrap();
+    for order in [Ordering::Relaxed, Ordering::Release, Ordering::SeqCst] {
+        for layer in 0..3 {
+            ctx.case(true);
+            LAST_ORDER.with(|l| l.set(None));
+            let r = match layer {
+                0 => vs.store(SpyVal(7), 8, order).is_ok(),
+                1 => reg.store(SpyVal(7), vm_memory::MemoryRegionAddress(8), order).is_ok(),
+                _ => m.store(SpyVal(7), GuestAddress(0x1008), order).is_ok(),
+            };
+            let got = LAST_ORDER.with(|l| l.get());
+            if !r || got != Some((true, order)) {
+                ctx.fail("C06/atomic/store-ordering", &format!("layer {} store with {:?}: the atomic operation saw {:?}", layer, order, got), json!({"layer": layer, "ordering": format!("{:?}", order)}));
+            }
+        }
+    }
+    for order in [Ordering::Relaxed, Ordering::Acquire, Ordering::SeqCst] {
+        for layer in 0..3 {
+            ctx.case(true);
+            LAST_ORDER.with(|l| l.set(None));
+            let r = match layer {
+                0 => vs.load::<SpyVal>(8, order).ok(),
+                1 => reg.load::<SpyVal>(vm_memory::MemoryRegionAddress(8), order).ok(),
+                _ => m.load::<SpyVal>(GuestAddress(0x1008), order).ok(),
+            };
+            let got = LAST_ORDER.with(|l| l.get());
+            if r != Some(SpyVal(7)) || got != Some((false, order)) {
+                ctx.fail("C06/atomic/load-ordering", &format!("layer {} load with {:?}: the atomic operation saw {:?}, value {:?}", layer, order, got, r), json!({"layer": layer, "ordering": format!("{:?}", order)}));
+            }
+        }
+    }
+}
+
 /// All interleavings of a writer flipping a value and a reader, at primitive-access granularity.
 fn schedules(ctx: &Ctx) {
     #[derive(Clone, Copy, Debug)]
@@ -470,6 +550,7 @@ pub fn run(tier: Tier, replay: Option<String>) -> i32 {
     };
     crate::crash::guarded(&ctx, &describe, || slice_classes(&ctx));
     crate::crash::guarded(&ctx, &describe, || object_classes(&ctx));
+    orderings(&ctx);
     schedules(&ctx);
     ctx.set_exhaustive(true);
     ctx.finish()
